@@ -141,6 +141,8 @@ func (r *Runner) runConcurrent() {
 	r.emit(ev{"ev": "final", "c": classify(err), "items": items})
 }
 
+func auxUUID(slot int) string { return fmt.Sprintf("00000000-0000-4000-8000-%012d", slot) }
+
 func (r *Runner) concObject(slot int, v Vals) sod.Object {
 	cv := r.complete(slot, v)
 	rec := buildRec(cv, 0)
@@ -211,6 +213,21 @@ func (r *Runner) doConc(g int, op *Op) (ret cev) {
 		if err == nil {
 			ret.n, err = r.db.Count(newObj(r.cfg.Plain))
 		}
+	case "xput":
+		// the second collection (race-detector runs only: results are not recorded): fixed identifiers per slot
+		a := &Aux{K: op.K, A: op.A}
+		a.Initialize(auxUUID(op.Slot))
+		err = r.db.InsertOrUpdate(a)
+	case "xget":
+		a := &Aux{}
+		a.Initialize(auxUUID(op.Slot))
+		_, err = r.db.Get(a)
+	case "xcount":
+		ret.n, err = r.db.Count(&Aux{})
+	case "xall":
+		_, err = r.db.All(&Aux{})
+	case "xq":
+		_, err = r.db.Search(&Aux{}, "A", ">=", 0).Collect()
 	case "switch":
 		c := r.cfg
 		c.Cache, c.Async = op.Cfg.Cache, op.Cfg.Async
